@@ -435,6 +435,64 @@ ROTTEN_MANAGERS = {
 }
 
 
+def rule_scroll_mirror(ctx: Ctx) -> RuleResult:
+    """scroll() moves the rows of the scrolling region by one: it removes the row at one margin and inserts a blank
+    row at the other, so every row outside the region keeps its place.  Both arms (forward, reverse) pop at a region
+    bound and insert at the *other* region bound; a pop() without index removes the last row of the screen - right
+    only while the region ends there; with a bottom margin above the last row the status lines below the region are
+    pushed down and the last one is lost (seed C15-r8b)."""
+    p = ctx.p
+    rr = RuleResult("SIB", "C15.27", "each arm of TermCanvas.scroll removes a row at one margin of the scrolling region and inserts one at the other", floor=2)
+    fi = p.func(f"{VT}.TermCanvas.scroll")
+    ifs = [n for n in fi.own_nodes() if isinstance(n, ast.If)]
+    if not ifs:
+        raise AnalysisError("TermCanvas.scroll: the reverse / forward branch was not found")
+    for arm_name, body in (("reverse", ifs[0].body), ("forward", ifs[0].orelse)):
+        pops = [c for st in body for c in ast.walk(st) if isinstance(c, ast.Call) and isinstance(c.func, ast.Attribute) and c.func.attr == "pop" and ast.unparse(c.func.value).endswith(".term")]
+        ins = [c for st in body for c in ast.walk(st) if isinstance(c, ast.Call) and isinstance(c.func, ast.Attribute) and c.func.attr == "insert" and ast.unparse(c.func.value).endswith(".term")]
+        pa = [ast.unparse(c.args[0]) if c.args else None for c in pops]
+        ia = [ast.unparse(c.args[0]) if c.args else None for c in ins]
+        bounds = {"self.scrollregion_start", "self.scrollregion_end"}
+        ok = len(pa) == 1 and len(ia) == 1 and {pa[0], ia[0]} == bounds
+        rr.inst(f"scroll {arm_name}", True, {"arm": arm_name, "pop_at": pa, "insert_at": ia, "margins_paired": ok})
+        if not ok:
+            rr.add(finding("SIB", fi, (pops or ins or [ifs[0]])[0], f"the {arm_name} arm of scroll() pops at {pa} and inserts at {ia}: not one row out at one margin of the scrolling region and one in at the other - with margins inside the screen (DECSTBM) rows outside the region move and a row below it is lost", construct=f"scroll {arm_name}: rows not exchanged between the two margins"))
+    return rr
+
+
+def rule_snapshot_stays_snapshot(ctx: Ctx) -> RuleResult:
+    """DECSC saves a *copy* of the character-set state (copy.copy(self.charset)); the live TermCharset is edited in
+    place afterwards by SO / SI / ESC ( x.  DECRC must hand out a copy as well: if the saved object itself becomes
+    the live one, the next designation edits the snapshot and a second ESC 8 restores the wrong character set (seed
+    C15-r8a).  Every store into self.charset / self.attrspec whose value is taken from the saved state goes through
+    copy.copy() / copy.deepcopy(); and symmetrically every store into the saved state that reads the live one."""
+    p = ctx.p
+    rr = RuleResult("ALIAS", "C15.26", "saved cursor attributes and live attributes never share an object: both directions of save / restore copy", floor=2)
+    tc = p.cls(f"{VT}.TermCanvas")
+    live, saved = {"charset", "attrspec"}, {"saved_attrs"}
+    for fi in p.all_class_functions(tc):
+        for n in fi.own_nodes():
+            if not isinstance(n, ast.Assign):
+                continue
+            tnames = {x.attr for t in n.targets for x in ast.walk(t) if isinstance(x, ast.Attribute) and isinstance(x.value, ast.Name) and x.value.id == fi.self_name}
+            for dst, src in ((live, saved), (saved, live)):
+                if not (tnames & dst):
+                    continue
+                par = {id(ch): pa for pa in ast.walk(n.value) for ch in ast.iter_child_nodes(pa)}
+                reads = [x for x in ast.walk(n.value) if isinstance(x, ast.Attribute) and x.attr in src and isinstance(x.value, ast.Name) and x.value.id == fi.self_name]
+                for r in reads:
+                    x, copied = r, False
+                    while id(x) in par:
+                        x = par[id(x)]
+                        if isinstance(x, ast.Call) and callee_name(x) in ("copy", "deepcopy"):
+                            copied = True
+                            break
+                    rr.inst(f"{short(fi)}: {norm(n, 50)}", True, {"store": f"{short(fi)}: {norm(n, 70)}", "reads": ast.unparse(r), "copied": copied})
+                    if not copied:
+                        rr.add(finding("ALIAS", fi, n, f"`{norm(n, 70)}` makes the {'live' if dst is live else 'saved'} state share an object with the {'saved' if dst is live else 'live'} one (`{ast.unparse(r)}` not copied): TermCharset is edited in place by SO / SI / designations, so the edit shows through - a later ESC 8 restores a character set that was never saved", construct=f"{fi.name}: saved and live attributes share an object"))
+    return rr
+
+
 def rule_rotten_flag(ctx: Ctx) -> RuleResult:
     """push_cursor() is the one place that decides, for every character written, whether the cursor is 'rotten'
     (parked on the last column with the wrap still pending).  Every path through it must decide the flag anew: a
@@ -927,6 +985,8 @@ def run(ctx: Ctx):
         rule_erase_display_absolute(ctx),
         lookahead.run_lookahead(p, "C15.24", [VT], floor=4),
         alias.run_shallow_copy(p, "C15.25", [VT], floor=1),
+        rule_snapshot_stays_snapshot(ctx),
+        rule_scroll_mirror(ctx),
     ]
     return out
 
